@@ -95,3 +95,40 @@ def _missing_else(b):
     if b["else"] is None:
         return True
     return any(_missing_else(x) for _, x in b["branches"]) or _missing_else(b["else"])
+
+
+# --------------------------------------------------------------------------- unrelated compiles before the case under test
+NOISE_TEXTS = [
+    None, None, None,
+    'def n { return "a" weighted 1 } /* trailing note never closed',
+    'def n { splitters: u return "a" weighted 1, "b" weighted 1 }\n/* TODO',
+    "def draft { /* todo",
+    "@@@ not an experiment",
+    'def n { return "a" weighted 1 } // */ def m { return "b" weighted 1 }',
+    'def n { splitters: a, b, c return "a" weighted 1 ;',
+    'def lambda { splitters: class return "a" weighted 1 }',
+    "/*",
+    'def n { salt: "x" splitters: zz_first, zz_second if zz_first == (1, (2, zz_second)) { return 1 weighted 1, 1.0 weighted 2 } }',
+]
+RESET_TEXT = '/* reset */ def r { return "a" weighted 1 }'
+
+
+def noise_strategy():
+    from hypothesis import strategies as st
+
+    return st.sampled_from(NOISE_TEXTS)
+
+
+def pre_noise(case):
+    """somebody else compiles something odd in the same process first (outcome irrelevant); compiling the case under test
+    must not care"""
+    t = case.get("noise") if isinstance(case, dict) else None
+    if t:
+        sut.compile_text(t)
+        return ["after-noise-compile"]
+    return []
+
+
+def reset_after_violation():
+    for _ in range(2):
+        sut.compile_text(RESET_TEXT)
